@@ -57,6 +57,9 @@ class CiderGrids(Grids):
 
     def __init__(self, mol, lmax=CIDER_DEFAULT_LMAX):
         super(CiderGrids, self).__init__(mol)
+        if lmax < 1:
+            # the harmonics recursion always fills the l=0 and l=1 entries
+            raise ValueError("lmax must be at least 1")
         self.lmax = lmax
         self.nlm = (lmax + 1) * (lmax + 1)
         self.grids_indexer = None
